@@ -255,12 +255,13 @@ var bubbleHdr = regexp.MustCompile(`synctest bubble \d+`)
 
 // stacksOfBubbles returns the stacks of all goroutines that belong to a
 // synctest bubble (best effort, for witnesses).
-func stacksOfBubbles() string {
-	buf := make([]byte, 1<<20)
+func stacksOfBubbles(bubble string) string {
+	buf := make([]byte, 8<<20)
 	n := runtime.Stack(buf, true)
 	var out []string
 	for _, g := range strings.Split(string(buf[:n]), "\n\n") {
-		if bubbleHdr.MatchString(strings.SplitN(g, "\n", 2)[0]) {
+		hdr := strings.SplitN(g, "\n", 2)[0]
+		if m := bubbleHdr.FindString(hdr); m != "" && (bubble == "" || m == bubble) {
 			out = append(out, g)
 		}
 	}
@@ -306,6 +307,7 @@ func PanicIsSDK(stack string) bool {
 // bounded helpers before returning. It returns false if the bubble aborted.
 func (c *Case) Bubble(keyPrefix string, fn func()) (ok bool) {
 	ok = true
+	bubble := ""
 	func() {
 		defer func() {
 			if r := recover(); r != nil {
@@ -314,9 +316,9 @@ func (c *Case) Bubble(keyPrefix string, fn func()) (ok bool) {
 				stack := string(debugStack())
 				switch {
 				case strings.Contains(msg, "deadlock: main bubble goroutine has exited"):
-					c.addViolation(Violation{Key: keyPrefix + "leak", Msg: "goroutines left behind after the scenario finished: " + msg, Stack: stacksOfBubbles()})
+					c.addViolation(Violation{Key: keyPrefix + "leak", Msg: "goroutines left behind after the scenario finished: " + msg, Stack: stacksOfBubbles(bubble)})
 				case strings.Contains(msg, "deadlock: all goroutines in bubble are blocked"):
-					c.addViolation(Violation{Key: keyPrefix + "deadlock", Msg: "scenario hung: " + msg, Stack: stacksOfBubbles()})
+					c.addViolation(Violation{Key: keyPrefix + "deadlock", Msg: "scenario hung: " + msg, Stack: stacksOfBubbles(bubble)})
 				default:
 					if PanicIsSDK(stack) {
 						c.addViolation(Violation{Key: keyPrefix + "panic", Msg: "SDK panic: " + msg, Stack: stack})
@@ -328,6 +330,8 @@ func (c *Case) Bubble(keyPrefix string, fn func()) (ok bool) {
 		}()
 		synctest.Test(c.T, func(t *testing.T) {
 			c.Log.ResetStart()
+			hb := make([]byte, 256)
+			bubble = bubbleHdr.FindString(string(hb[:runtime.Stack(hb, false)]))
 			defer func() {
 				// A panic raised synchronously in the bubble's root goroutine
 				// must not reach tRunner (which would kill the process).
